@@ -3,6 +3,9 @@
 package otr3
 
 import (
+	"runtime"
+	"runtime/debug"
+	"bytes"
 	"fmt"
 	"os"
 	"sort"
@@ -116,7 +119,8 @@ func c20RunPreempt(seed int64, kinds [2]int, first int, plan []c20Switch, allPoi
 	finished := make(chan int, 2)
 	threads := [2]*c20Thread{}
 	for i := 0; i < 2; i++ {
-		threads[i] = &c20Thread{W: c20World(seed, kinds[i]), Steps: c20Script(kinds[i])}
+		// different key material per thread, also when both run the same script
+		threads[i] = &c20Thread{W: c20World(seed+int64(100*i), kinds[i]), Steps: c20Script(kinds[i])}
 	}
 	base, _ := c20PkgHash()
 	verifPointHook = func(kind int) {
@@ -160,6 +164,16 @@ func c20RunPreempt(seed int64, kinds [2]int, first int, plan []c20Switch, allPoi
 		}
 	}
 	h, _ := c20PkgHash()
+	// the messages handed out earlier are re-read through the very slices the library returned: they belong to
+	// the caller, nothing may write to them later (no cloning in this pass, so the aliases are the real ones)
+	for i := 0; i < 2; i++ {
+		for k, kept := range threads[i].Kept {
+			if !bytes.Equal(kept[0], kept[1]) {
+				transcripts[i] = append(transcripts[i], fmt.Sprintf("message #%d handed out earlier was overwritten later", k))
+				break
+			}
+		}
+	}
 	return transcripts, s.count, h != base
 }
 
@@ -178,6 +192,9 @@ func VerifC20Points(args []string) int {
 		shard, _ = strconv.Atoi(args[2])
 		nshards, _ = strconv.Atoi(args[3])
 	}
+	// the garbage collector is a scheduler of its own (it empties sync.Pool caches, for one): it runs between
+	// executions, never inside one
+	debug.SetGCPercent(-1)
 	if !c20Instrumented() {
 		fmt.Println("c20points: NOT-INSTRUMENTED")
 		return 2
@@ -198,14 +215,14 @@ func VerifC20Points(args []string) int {
 		AllPoints bool // preempt at every function entry, not only at accesses to package-level variables
 		Depth     int  // preemption bound
 	}
-	cfgs := []pairCfg{{[2]int{0, 1}, false, 1}, {[2]int{2, 0}, false, 1}}
+	cfgs := []pairCfg{{[2]int{0, 1}, false, 1}, {[2]int{2, 0}, false, 1}, {[2]int{1, 1}, false, 1}}
 	if tier == "thorough" {
-		cfgs = []pairCfg{{[2]int{0, 1}, true, 1}, {[2]int{2, 0}, true, 1}, {[2]int{1, 2}, true, 1}, {[2]int{0, 0}, false, 1}, {[2]int{2, 2}, false, 1},
+		cfgs = []pairCfg{{[2]int{0, 1}, true, 1}, {[2]int{2, 0}, true, 1}, {[2]int{1, 2}, true, 1}, {[2]int{1, 1}, true, 1}, {[2]int{0, 0}, false, 1}, {[2]int{2, 2}, false, 1},
 			{[2]int{0, 1}, false, 2}, {[2]int{2, 0}, false, 2}}
 	}
 	for _, cf := range cfgs {
 		pr := cf.Kinds
-		solo := [2][]string{c20Solo(seed, pr[0]), c20Solo(seed, pr[1])}
+		solo := [2][]string{c20Solo(seed, pr[0]), c20Solo(seed+100, pr[1])}
 		_, cnt, _ := c20RunPreempt(seed, pr, 0, nil, cf.AllPoints)
 		execs, bad, ix := 0, 0, 0
 		reported := map[string]bool{}
@@ -216,6 +233,9 @@ func VerifC20Points(args []string) int {
 			}
 			tr, _, changed := c20RunPreempt(seed, pr, first, plan, cf.AllPoints)
 			execs++
+			if execs%8 == 0 {
+				runtime.GC()
+			}
 			for i := 0; i < 2; i++ {
 				if strings.Join(tr[i], "\n") != strings.Join(solo[i], "\n") {
 					bad++
